@@ -98,7 +98,11 @@ def op_pyd(config: str, *steps: str) -> str:
             vals = [impl.parse_value(v) for v in impl.split_semi(f[2])]
             kw = {fields[i][0]: vals[i] for i in order}
             try:
-                m = cls(**kw)
+                if cfg.get("ctx") == "1":
+                    # the caller supplies ONE validation-context dict and reuses it for every validation of the line
+                    m = cls.model_validate(kw, context=ns.setdefault("CALLER_CONTEXT", {"caller": "data"}))
+                else:
+                    m = cls(**kw)
             except Exception as e:  # noqa: BLE001
                 outs.append("pyd-validation" if type(e).__name__ == "ValidationError" else show_report(e))
                 continue
